@@ -101,6 +101,9 @@ Definition spec_step (v : variant) (sent : list (N * N)) (s : sstate) (o : aop) 
       fold_left (fun s' p => spec_fire sent s' (fst p) (OErr ConnectionExc)) (s_out s)
                 (s_with s (s_alloc s) false [] (s_exp s) (s_distinct s))
   | Made => s_with s (s_alloc s) true (s_out s) (s_exp s) (s_distinct s)
+  | Close =>    (* the user closed the client: requests issued from now on must fail at once; what is
+                   outstanding fails when the loss of the connection is reported *)
+      s_with s (s_alloc s) false (s_out s) (s_exp s) (s_distinct s)
   | Skip n => s_with s (s_alloc s + n) (s_conn s) (s_out s) (s_exp s) (s_distinct s)
   end.
 
